@@ -7,7 +7,7 @@
 From Coq Require Import ZArith List Bool Lia.
 From PCB Require Import lib.Result lib.PyInt model.StrSpace model.UserFn
      proofs.StrSpace_base proofs.StrSpace_gc proofs.StrSpace_inv proofs.StrSpace_ops
-     proofs.UserFn_proofs proofs.UserFn_stmt proofs.UserFn_values proofs.UserFn_binding.
+     proofs.UserFn_proofs proofs.UserFn_stmt proofs.UserFn_values proofs.UserFn_binding proofs.UserFn_call.
 Import ListNotations.
 Open Scope Z_scope.
 
@@ -110,6 +110,44 @@ Theorem C20_argument_rooted : forall c fuel p e s v o,
   typed_for p (nth 0 (tvals s') (ONum 0 0)) /\ arg_val c s' (nth 0 (tvals s') (ONum 0 0)) = arg_val c s o.
 Proof. exact converted_argument_rooted. Qed.
 Print Assumptions C20_argument_rooted.
+
+(* THE WHOLE CALL, hypotheses discharged from the invariant: for every function, argument list, fuel and caller state
+   satisfying the invariant, with ps the parameter names completed by the default types of the moment of the call,
+   (1) after the call - value, error raised by the conversion of an argument, by the body, Out of memory, anything - every
+       scalar and array element of the caller (shadowed or not) has its value from before the call and the recursion
+       flags are as before;
+   (2) a function that is already being evaluated is refused with Out of memory once its arguments have been evaluated;
+   (3) when the argument loop, the saving of the shadowed variables and the binding loop have succeeded, then at the
+       start of the body (recursion flag of f set) and still after the body has been evaluated, every parameter p
+       (for a repeated name: its last occurrence) reads the value that its argument a - evaluated in some good state
+       s_a to v - was converted to by conv_arg; that value went through temp_values as a collector root. *)
+Theorem C20_call : forall c fuel f ps0 body args st,
+  Good c st -> Jt st -> lookup f (fns st) = Some (ps0, body) ->
+  (let '(st', r) := evaluate c (parse c fuel) f args st in
+   Good c st' /\ active st' = active st /\
+   (forall n, sval_of c st' n = sval_of c st n) /\ (forall n i, aval_of c st' n i = aval_of c st n i)) /\
+  (forall st1, eval_args (parse c fuel) (map (resolve st) ps0) args st = (st1, Ok tt) -> mem_z f (active st1) = true ->
+     snd (evaluate c (parse c fuel) f args st) = Err 7) /\
+  (forall st1 st2 st3, let ps := map (resolve st) ps0 in
+     (length ps <= length args)%nat ->
+     eval_args (parse c fuel) ps args st = (st1, Ok tt) ->
+     save_params c ps [] st1 = (st2, Ok tt) ->
+     bind_params c ps 0 (Nat.min (length ps) (length args)) (length (tvals st2) - length (tvals st1)) st2 = (st3, Ok tt) ->
+     let st4 := set_active st3 (f :: active st3) in
+     let '(st5, _) := parse c fuel body st4 in
+     forall i p, nth_error ps i = Some p -> ~ In p (skipn (S i) ps) ->
+       exists a s_a s_b v o, nth_error args i = Some a /\ parse c fuel a s_a = (s_b, Ok v) /\ Good c s_a /\
+                             conv_arg p s_b v = Ok o /\
+                             sval_of c st4 p = arg_val c s_b o /\ sval_of c st5 p = arg_val c s_b o).
+Proof.
+  intros c fuel f ps0 body args st G J Hf. split; [|split].
+  - pose proof (C20_frame_values c fuel f args st G J) as H.
+    destruct (evaluate c (parse c fuel) f args st) as [st' r]. tauto.
+  - intros st1 Ha Hm. eapply C20_recursion; eauto.
+  - intros st1 st2 st3 ps Hlen E1 E2 E3.
+    exact (call_binding_body c (parse c fuel) (parse_EV c fuel) f body ps args st st1 st2 st3 G J Hlen E1 E2 E3).
+Qed.
+Print Assumptions C20_call.
 
 (* non-vacuity: with one function defined, a call on a good state satisfies the hypotheses and returns *)
 Example C20_nonvacuous :
